@@ -3,8 +3,8 @@ CHECK = {
  'level': 'exploration',
  'rule': '(1) rapid multisets of 1-12 peer tips over small value ranges (many ties) through the real peer selection; (2) responder nodes with chains of '
          '3-260 blocks, block cache 4/20/515, optionally a reorganised tail, queried through the three sync RPC handlers with ids on/off the chain, '
-         'removed blocks, malformed ids; (3) two in-process nodes over real libp2p connections on loopback: shared prefix, requester fork, better '
-         'responder fork shorter/longer than two rounds (fast vs block sync), requester fork built honestly or with self-only prevotes (so that the better chain can be the shorter one), clock far behind or up to date, directed cases for a fork at the finalized block of the requester and for a fork deeper than the first common-block search window (9 rounds), then the requester processes the responder\'s tip; (3a) a requester with 2-3 connected peers (honest chain, taller chain with lower maxHeightPrevoted, optional twin) more than two rounds ahead: block sync must end on the chain of the peer the selection rule names. Non-trivial = (1) >=2 '
+         'removed blocks, malformed ids - the expected last block and chain come from the harness\'s OWN record (the blocks returned by Apply minus the ones it removed, in order); Chain.LastBlock() and the stored headers are cross-checked against that record after building, after every removal and after regrowing, instead of being the expectation; (3) two in-process nodes over real libp2p connections on loopback: shared prefix, requester fork, better '
+         'responder fork shorter/longer than two rounds (fast vs block sync), requester fork built honestly or with self-only prevotes (so that the better chain can be the shorter one), clock far behind or up to date, directed cases for a fork at the finalized block of the requester and for a fork deeper than the first common-block search window (9 rounds), then the requester processes the responder\'s tip (the peer\'s chain, the announced block and the requester\'s chain before the sync are taken from the harness\'s own record of the blocks it applied to each node; the engines\' answers are cross-checked against it); (3a) a requester with 2-3 connected peers (honest chain, taller chain with lower maxHeightPrevoted, optional twin) more than two rounds ahead: block sync must end on the chain of the peer the selection rule names. Non-trivial = (1) >=2 '
          'different block IDs tie on the first two criteria, (2) a request spanning the cache boundary or the 103-block cap, (3) a convergence case in '
          'which the requester had to delete >=2 own blocks. Distinct by digest of the case',
  'level_text': 'Peer choice must be maximal in maxHeightPrevoted, then height, then block-ID frequency (validity predicate, random ties re-run 5x); '
@@ -12,7 +12,8 @@ CHECK = {
                'chain must be adopted block for block with temp blocks cleared, while finalized blocks never change (C04 oracle alongside).',
  'level_note': 'Real p2p stack on 127.0.0.x; download limiter 10 req/s bounds case rate; a sync not finishing within 60 s is reported inconclusive.',
  'technique': 'property-based testing (rapid) with validity predicates, differential against the responder chain, and two-node convergence runs',
- 'assumptions': ['fake deterministic application', 'loopback networking'],
+ 'assumptions': ['fake deterministic application', 'loopback networking',
+                 'own record: the block object returned by the harness node\'s Apply (built by the harness, accepted by VerifProcess) is the block on the chain; removing the tip is done by handing that block to VerifDeleteBlock, as the engine\'s callers hand over Chain.LastBlock()'],
  'quick': [{'pkg': 'c19', 'run': 'TestBestPeer', 'checks': 3000, 'timeout': 300},
            {'pkg': 'c19', 'run': 'TestRPCHandlers', 'checks': 25, 'timeout': 600},
            {'pkg': 'c19', 'run': 'TestConvergence|TestMultiPeer|TestMalicious|TestRegress', 'checks': 40, 'timeout': 900}],
